@@ -200,8 +200,15 @@ def gen_coll_history(rng):
         elif k == 'other_len': ops.append([k, rng.choice([2, 3])])
         else: ops.append([k])
     kind = rng.choice(['m2m', 'm2m', 'o2m'])
+    lazy_items = kind == 'o2m' and rng.random() < 0.6
+    if lazy_items:
+        ops2 = []
+        for o in ops:
+            if rng.random() < 0.5: ops2.append(['load_item', rng.randrange(n)])
+            ops2.append(o)
+        ops = ops2
     if kind == 'o2m': ops = [(['len'] if o[0] == 'other_len' and rng.random() < 0.5 else ([o[0]] if o[0] == 'other_len' else o)) for o in ops]
-    return {'kind': kind, 'regime': rng.choice(['default', 'np0', 'nphuge', 'lazy']), 'courses': n, 'rows': rows, 'others': others,
+    return {'kind': kind, 'lazy_items': lazy_items, 'regime': rng.choice(['default', 'np0', 'nphuge', 'lazy']), 'courses': n, 'rows': rows, 'others': others,
             'preload': rng.choice(['none', 'none', 'partial', 'full']), 'ops': ops}
 
 
@@ -229,7 +236,11 @@ def coll_exprs(h, steps):
     nl = lambda xs: '[' + '; '.join(str(x) for x in xs) + ']'
     out = []
     for st in steps:
-        op, (rb, sb), (ra, sa), res = st['op'], st['before'], st['after'], st['result']
+        op, res = st['op'], st['result']
+        rb, sb = st['before'][0], st['before'][1]
+        ra, sa = st['after'][0], st['after'][1]
+        lb = st['before'][2] if len(st['before']) > 2 else None
+        la = st['after'][2] if len(st['after']) > 2 else None
         if res[0] != 'v':
             out.append((st, None)); continue
         R, S, RA, SA = nl(rb), csd(sb), nl(ra), csd(sa)
@@ -258,7 +269,15 @@ def coll_exprs(h, steps):
         elif k == 'flush' and sb is not None and (sb['added'] or sb['removed']):
             e = 'same_elems (flush_rows %s %s) %s && sd_same (flush_sd %s) %s' % (R, S, RA, S, SA)
         else: e = 'true'
-        if o2m:
+        if o2m and lb is not None and o2m_repaired():
+            OB = '(mkos %s %s %s)' % (R, S, nl(lb)); OA = '(mkos %s %s %s)' % (RA, SA, nl(la))
+            if k == 'load_item': tr = 'os_same (query_item %d %s) %s' % (op[1], OB, OA)
+            elif k == 'add': tr = 'os_same (o_add %d %s) %s' % (op[1], OB, OA)
+            elif k == 'remove': tr = 'os_same (o_remove %d %s) %s' % (op[1], OB, OA)
+            elif k == 'flush' and sb is not None and (sb['added'] or sb['removed']): tr = 'os_same (o_flush %s) %s' % (OB, OA)
+            else: tr = 'true'
+            out.append((st, '(negb (linv_b %s)) || ((%s) && (%s) && linv_b %s)' % (OB, e, tr, OA)))
+        elif o2m:
             # the recorded one-to-many remove() defect breaks the invariant: from a state where it holds the model step must reproduce
             # the real step; the invariant is demanded afterwards except after a remove (and after anything that starts from a broken state)
             inv_a = 'true' if (k in ('remove', 'remove_rev') and not o2m_repaired()) else 'inv_b %s %s' % (RA, SA)
